@@ -12,3 +12,4 @@ if [ ! -x .gosim/goroot/bin/go ] || ! cmp -s toolchain/gosim-runtime.patch .gosi
 fi
 mkdir -p .gosim/bin .gosim/tmp evidence replays
 ./check build
+./check build --heavy
